@@ -327,10 +327,13 @@ func (t *Tokenizer) tokenizeBuffer(buf []byte, last bool) {
 				t.mode = dotMap
 				continue
 			}
+			t.mode = dotMap // at least one digit must follow the decimal point
+			i = 0
 			for i, b = range buf[off+1:] {
 				if digitMap[b] != numDigit {
 					break
 				}
+				t.mode = fracMap
 				t.num.Frac = t.num.Frac*10 + uint64(b-'0')
 				t.num.Div *= 10.0
 				if math.MaxInt64 < t.num.Frac {
@@ -342,7 +345,6 @@ func (t *Tokenizer) tokenizeBuffer(buf []byte, last bool) {
 			if digitMap[b] == numDigit {
 				off++
 			}
-			t.mode = fracMap
 		case numFrac:
 			t.num.AddFrac(b)
 			t.mode = fracMap
